@@ -605,6 +605,62 @@ def available_networks():
     return ok, bad
 
 
+_B58_RUN = re.compile("[1-9A-HJ-NP-Za-km-z]{100,120}")
+
+
+def _extkey_tokens(text):
+    """the substrings of text that ARE extended keys: Base58Check strings over 78 bytes"""
+    out = []
+    for tok in _B58_RUN.findall(text if isinstance(text, str) else ""):
+        try:
+            if len(_b58decode_check_soft(tok)) == 78:
+                out.append(tok)
+        except ValueError:
+            pass
+    return out
+
+
+def _b58decode_check_soft(t):
+    v = 0
+    for c in t:
+        v = v * 58 + D._B58.index(c)
+    pad = len(t) - len(t.lstrip("1"))
+    raw = b"\0" * pad + v.to_bytes((v.bit_length() + 7) // 8, "big")
+    if len(raw) < 5 or hashlib.sha256(hashlib.sha256(raw[:-4]).digest()).digest()[:4] != raw[-4:]:
+        raise ValueError("bad checksum")
+    return raw[:-4]
+
+
+def _texts_of(node, prv):
+    """EVERY public way the node turns into extended-key text -> [(accessor, exact form or None, text)].
+    Accessors are discovered, not assumed: a class without as_text / ku_output is simply not asked."""
+    outs = []
+    rf, t = _refused(lambda: node.hwif(as_private=prv))
+    outs.append(("hwif", prv, None if rf else t))
+    at = getattr(node, "as_text", None)
+    if callable(at):
+        rf, t = _refused(lambda: at(as_private=prv))
+        if rf:                                   # an as_text without the keyword: whatever it says must still be this node's text
+            rf, t = _refused(lambda: at())
+            if not rf:
+                outs += [("as_text()", None, tok) for tok in _extkey_tokens(t)]
+        else:
+            outs.append(("as_text", prv, t))
+    for nm, f in (("repr", repr), ("str", str)):
+        rf, t = _refused(lambda: f(node))
+        if not rf:
+            outs += [(nm, None, tok) for tok in _extkey_tokens(t)]
+    ku = getattr(node, "ku_output", None)
+    if callable(ku):
+        try:
+            for item in ku():
+                for x in (item if isinstance(item, (tuple, list)) else (item,)):
+                    outs += [("ku_output", None, tok) for tok in _extkey_tokens(x)]
+        except Exception:  # noqa  (ku_output also prints addresses etc.; their failures are not C09's)
+            pass
+    return outs
+
+
 def _text_worker(arg):
     recs, seeds = arg
     from pycoin.networks.registry import network_for_netcode
@@ -625,12 +681,43 @@ def _text_worker(arg):
             det = {"net": A, "family": fam, "private": prv, "path": D.path_str(p), "seed": seed.hex(), "spec_text": want_text}
             base = nets[A].keys.bip32_seed(seed).subkey_for_path(D.path_str(p))
             node = base if fam == "bip32" else getattr(nets[A].keys, fam + "_deserialize")(b"\0\0\0\0" + base.serialize(as_private=True))
-            rf, got_text = _refused(lambda: node.hwif(as_private=prv))
-            n += 1
-            if rf or got_text != want_text:
-                fails.append(("C09|text|hwif|net=%s|%s|%s" % (A, fam, "prv" if prv else "pub"),
-                              "%s %s text of m/%s: pycoin %r, spec %r" % (A, fam, D.path_str(p), got_text, want_text), det))
+            # every way to text: on the private node for the private form; for the public form both on the
+            # private node and on its public copy.  A text whose form is not chosen by an argument (repr, str,
+            # ku_output) must be the spec's private or public text of THIS family.
+            sib = _G["text_index"].get((A, fam, tuple(p), not prv))
+            allowed = {want_text} | ({ev.text(sib["text"])} if sib is not None else set())
+            bad_text = False
+            for who, obj in ([("node", node)] if prv else [("node", node), ("public_copy", node.public_copy())]):
+                for acc, form, got in _texts_of(obj, prv):
+                    n += 1
+                    if (got != want_text) if form is not None else (got not in allowed or (who == "public_copy" and got != want_text)):
+                        bad_text = bad_text or acc == "hwif"
+                        fails.append(("C09|text|%s|net=%s|%s|%s" % (acc, A, fam, "prv" if prv else "pub"),
+                                      "%s %s text of m/%s through %s of the %s: pycoin %r, spec %r" % (A, fam, D.path_str(p), acc, who, got, want_text), det))
+            if bad_text:
                 continue
+            # the catch-all parsers of the key's own network give back a key of the SAME family
+            for m_all in ("hierarchical_key", "__call__"):
+                pf = getattr(nets[A].parse, m_all, None)
+                if not callable(pf):
+                    continue
+                rf, r = _refused(lambda: pf(want_text))
+                n += 1
+                cls = "%s|%s|%s" % ("parse()" if m_all == "__call__" else m_all, fam, "prv" if prv else "pub")
+                if rf or r is None:
+                    fails.append(("C09|text|catch-all|%s|want=key|got=%s" % (cls, "raises" if rf else "None"),
+                                  "%s.parse.%s does not read the %s text of its own network" % (A, m_all, fam), det))
+                    continue
+                if not hasattr(r, "hwif"):
+                    continue            # read as something else (an address-like contract): C08/C18's subject
+                if not _cmp(fails, "text|catch-all", cls, want_fields, r, dict(det, reader=m_all)):
+                    continue
+                ref = node if prv else node.public_copy()
+                same = [(acc, got) for acc, form, got in _texts_of(r, prv) if form is not None]
+                if any(got != want_text for acc, got in same) or _refused(lambda: r.address())[1] != _refused(lambda: ref.address())[1]:
+                    fails.append(("C09|text|catch-all family|%s" % cls,
+                                  "%s.parse.%s(text) is not a %s key: texts %s, address %s vs %s" % (
+                                      A, m_all, fam, same, _refused(lambda: r.address())[1], _refused(lambda: ref.address())[1]), det))
             readers = {(a, f) for a, f in rec["readers"]}
             for B, netB in nets.items():
                 for fam2, (m_any, m_prv, m_pub) in _FAM_METHODS.items():
@@ -652,6 +739,14 @@ def _text_worker(arg):
                         continue
                     back = r.hwif(as_private=prv)
                     rprv, rpub = getattr(netB.parse, m_prv)(want_text), getattr(netB.parse, m_pub)(want_text)
+                    # same family: every text accessor of the parsed key says the text again, and it pays to the
+                    # address a key of that family built directly on that network pays to
+                    twin = getattr(netB.keys, fam2 + "_deserialize")(b"\0\0\0\0" + node.serialize(as_private=prv))
+                    others = [(acc, got) for acc, form, got in _texts_of(r, prv) if form is not None and got != want_text]
+                    if others or _refused(lambda: r.address())[1] != _refused(lambda: twin.address())[1]:
+                        fails.append(("C09|text|family of parsed key|%s|%s" % (fam2, "prv" if prv else "pub"),
+                                      "%s.parse.%s(text): %s; address %s vs %s" % (B, m_any, others, _refused(lambda: r.address())[1],
+                                                                                    _refused(lambda: twin.address())[1]), det))
                     if back != want_text or (rprv is not None) != prv or (rpub is not None) == prv:
                         fails.append(("C09|text|re-serialise|%s|%s" % (fam2, "prv" if prv else "pub"),
                                       "%s.parse.%s(text).hwif() = %r, text = %r; _prv %s, _pub %s" % (B, m_any, back, want_text, rprv, rpub), det))
@@ -676,6 +771,7 @@ def spec_text_cases(ctx):
             raise MachineryError("MC_ExtKeyText printed no case")
         _G["text_recs"] = recs
         _G["spec_versions"] = {(x["net"], x["fam"], bool(x["prv"])): bytes(x["text"]["a"]["p"][0]["v"]) for x in recs}
+        _G["text_index"] = {(x["net"], x["fam"], _tp(x["path"]), bool(x["prv"])): x for x in recs}
     return _G["text_recs"]
 
 
@@ -1045,7 +1141,9 @@ def record_traces(seed, count, max_events, nets_ok, fam_nets=None, stats=None):
                     prv = private and rnd.random() < 0.6
                     blob74 = obj.serialize(as_private=prv)
                     node2 = getattr(n2.keys, fam + "_deserialize")(b"\0\0\0\0" + blob74)
-                    text = node2.hwif(as_private=prv)
+                    # through either text accessor the class offers
+                    at = getattr(node2, "as_text", None)
+                    text = (at if callable(at) and rnd.random() < 0.5 else node2.hwif)(as_private=prv)
                     blob = _b58decode_check(text)
                     ev.append({"op": "text", "o": o, "net": nsym, "fam": fam, "prv": prv, "blob": list(blob), "facts": _facts([parent], [])})
                     # parse it back with a random reader
